@@ -61,7 +61,7 @@ func applicable(dir, constraint int) bool {
 func predMet(c caseSpec) bool {
 	failed := c.beh != bRight && c.beh != bWrong && c.beh != bNothing
 	switch c.pred {
-	case pAny, pPrefixMet, pMatchMet, pPrefixEmpty, pSuffixEmpty:
+	case pAny, pPrefixMet, pMatchMet, pPrefixEmpty, pSuffixEmpty, pCustomAccept:
 		return failed
 	case pExactMet, pSuffixMet:
 		// built from the complete scripted error text; a panic's text continues with a
@@ -113,11 +113,19 @@ func hook[C any](l *listRun, i, kind int, phase string) func(int, *C) error {
 	case hAbsent:
 		return nil
 	case hPass:
-		return func(int, *C) error { l.seen(phase, i); return nil }
+		return func(idx int, _ *C) error { l.hookIndex(phase, i, idx); l.seen(phase, i); return nil }
 	case hError:
-		return func(int, *C) error { l.seen(phase, i); return fmt.Errorf("scripted %s hook failure %d", phase, i) }
+		return func(idx int, _ *C) error {
+			l.hookIndex(phase, i, idx)
+			l.seen(phase, i)
+			return fmt.Errorf("scripted %s hook failure %d", phase, i)
+		}
 	}
-	return func(int, *C) error { l.seen(phase, i); panic(fmt.Sprintf("scripted %s hook panic %d", phase, i)) }
+	return func(idx int, _ *C) error {
+		l.hookIndex(phase, i, idx)
+		l.seen(phase, i)
+		panic(fmt.Sprintf("scripted %s hook panic %d", phase, i))
+	}
 }
 
 func predicate(c caseSpec, i int) test.AssertErrorFunc {
@@ -170,6 +178,10 @@ func predicate(c caseSpec, i int) test.AssertErrorFunc {
 		return test.ErrorHasSuffix("x" + head)
 	case pSuffixEmpty:
 		return test.ErrorHasSuffix("")
+	case pCustomAccept:
+		return func(t test.TestingT, err error, failInfo string) bool { return err != nil }
+	case pCustomReject:
+		return func(t test.TestingT, err error, failInfo string) bool { return false }
 	}
 	return test.ErrorMatch("(")
 }
@@ -322,6 +334,9 @@ func judge(ls listSpec, l *listRun, escaped interface{}) *core.Violation {
 	// with the interface present nothing may fail before the first collaborator runs
 	if l.listFail > 0 {
 		return mk("L1-false-failure", "list-level", fmt.Sprintf("a failure was reported before any case ran although the type implements the interface: %v", l.msgs))
+	}
+	if len(l.badIndex) > 0 {
+		return mk("L5-hook-index", "hook-index", "a hook was handed an index that is not its case's position in the list: "+l.badIndex[0])
 	}
 	for _, e := range l.events {
 		if e.what == "unscripted" {
